@@ -58,7 +58,8 @@ IdlePass == [ active |-> FALSE, actor |-> "", target |-> "", oid |-> "", ouid |-
               gone404 |-> {},
               created |-> FALSE,
               pulled |-> "",                             \* package controller: class of the content pulled in this pass
-              sliceWant |-> [ k \in Keys |-> "" ],
+              gcSeen |-> {},                            \* package controller: uids of the ObjectSets that existed when it listed them for slice GC
+              sliceSeq |-> <<>>,                          \* package controller: <<name, content>> per chunk, in chunk order
               nf |-> {} ]                                \* keys an uncached Get of this pass did not find      \* package controller: content hash of the slice it wanted under name k                        \* deployment controller: this pass created an ObjectSet                           \* keys whose Delete was answered with NotFound                             \* deployment controller: key whose Create hit AlreadyExists
 
 Init == /\ l = 1
@@ -258,7 +259,10 @@ TrOther ==
     /\ l <= Len(Trace) /\ E.actor \notin {"env", "sim"} /\ E.ev \in {"Watch", "Free", "List", "DynList"}
     /\ pass' = [ pass EXCEPT ![E.actor].calls = @ + 1, ![E.actor].apiErr = @ \/ E.res # "ok",
                               ![E.actor].listed = IF E.ev = "List" /\ E.res = "ok" /\ IsDepActor(E.actor) THEN E.args.items ELSE @,
-                              ![E.actor].hasList = @ \/ (E.ev = "List" /\ E.res = "ok" /\ IsDepActor(E.actor)) ]
+                              ![E.actor].hasList = @ \/ (E.ev = "List" /\ E.res = "ok" /\ IsDepActor(E.actor)),
+                              ![E.actor].gcSeen = IF E.ev = "List" /\ E.res = "ok" /\ IsPkgActor(E.actor) /\ E.args.kind \in {"ObjectSet", "ClusterObjectSet"}
+                                                    THEN { store[k].uid : k \in { x \in Keys : store[x].exists /\ store[x].kind \in {"ObjectSet", "ClusterObjectSet"} } }
+                                                    ELSE @ ]
     /\ UNCHANGED <<store, hist, scen>>
     /\ Advance
 
@@ -310,8 +314,12 @@ TrWrite ==
              ![p].orev = IF k = pr.target /\ E.ev = "StatusUpdate" /\ @ = 0 THEN E.args.body.cr.revision ELSE @,
              ![p].status = IF k = pr.target /\ E.ev = "StatusUpdate" /\ ok THEN E.post ELSE @,
              ![p].statusWritten = @ \/ (k = pr.target /\ E.ev = "StatusUpdate" /\ ok),
-             ![p].sliceWant[k] = IF IsPkgActor(pr.actor) /\ E.ev = "Create" /\ ~E.dry /\ E.args.body.kind \in {"ObjectSlice", "ClusterObjectSlice"}
-                                   THEN E.args.body.cr.tmplHash ELSE @,
+             \* the deployer creates one slice per chunk, in order, and retries a chunk under another name after a
+             \* name collision: consecutive attempts with the same content belong to the same chunk, the last one names it
+             ![p].sliceSeq = IF IsPkgActor(pr.actor) /\ E.ev = "Create" /\ ~E.dry /\ E.args.body.kind \in {"ObjectSlice", "ClusterObjectSlice"}
+                               THEN LET c == [ name |-> k, content |-> E.args.body.cr.tmplHash ]
+                                    IN IF Len(@) > 0 /\ @[Len(@)].content = c.content THEN [ @ EXCEPT ![Len(@)] = c ] ELSE Append(@, c)
+                               ELSE @,
              ![p].clash = IF IsDepActor(pr.actor) /\ E.ev = "Create" /\ E.res = "AlreadyExists" THEN k ELSE @,
              ![p].finRemoved = @ \/ (k = pr.target /\ E.ev = "MergePatch" /\ ok /\ E.args.patch.setsFinalizers
                                      /\ "package-operator.run/cached" \notin Range(E.post.fin)) ]
@@ -932,18 +940,35 @@ Inv_C09_PackagePaused ==
 
 \* C14: slice garbage collection never deletes a slice referenced by the deployment template or any existing ObjectSet
 SlicesOf(o) == UNION { Range(o.cr.phases[j].slices) : j \in DOMAIN o.cr.phases }
+GCDelete == lw.valid /\ IsPkgActor(W.actor) /\ W.ev = "Delete" /\ ~W.dry /\ W.res = "ok" /\ W.pre.exists
+              /\ W.pre.kind \in {"ObjectSlice", "ClusterObjectSlice"}
+\* the decision: not referenced by the deployment template, nor by any ObjectSet that existed when the pass listed them
 Inv_C14_GC ==
-    (lw.valid /\ IsPkgActor(W.actor) /\ W.ev = "Delete" /\ ~W.dry /\ W.res = "ok" /\ W.pre.exists
-       /\ W.pre.kind \in {"ObjectSlice", "ClusterObjectSlice"})
+    GCDelete
+    => \A k \in Keys :
+         (store[k].exists /\ (store[k].kind \in {"ObjectDeployment", "ClusterObjectDeployment"}
+                               \/ (store[k].kind \in {"ObjectSet", "ClusterObjectSet"} /\ store[k].uid \in PR.gcSeen)))
+         => W.key \notin SlicesOf(store[k])
+\* the statement at the instant of the delete: not referenced by ANY existing ObjectSet (also one created after the list)
+Inv_C14_GCInstant ==
+    GCDelete
     => \A k \in Keys : (store[k].exists /\ store[k].kind \in {"ObjectSet", "ClusterObjectSet", "ObjectDeployment", "ClusterObjectDeployment"})
                          => W.key \notin SlicesOf(store[k])
 
 \* C14: a slice name is only used for the content it was computed from (a colliding name is never reused)
+\* lossless encoding: when the deployer has chunked in this pass, the slices named by the template it writes are,
+\* in order, the chunks — each stored under its name with exactly the content of that chunk (so a name that
+\* collides with different content is never reused)
+RECURSIVE FlatFrom(_, _)
+FlatFrom(ph, j) == IF j > Len(ph) THEN <<>> ELSE ph[j].slices \o FlatFrom(ph, j + 1)
+FlatSlices(o) == FlatFrom(o.cr.phases, 1)
 Inv_C14_SliceContent ==
     (lw.valid /\ IsPkgActor(W.actor) /\ W.ev = "Update" /\ ~W.dry /\ W.res = "ok" /\ W.post.exists
-       /\ W.post.kind \in {"ObjectDeployment", "ClusterObjectDeployment"})
-    => \A sk \in SlicesOf(W.post) :
-          (sk \in Keys /\ PR.sliceWant[sk] # "") => (store[sk].exists /\ store[sk].cr.tmplHash = PR.sliceWant[sk])
+       /\ W.post.kind \in {"ObjectDeployment", "ClusterObjectDeployment"} /\ Len(PR.sliceSeq) > 0)
+    => /\ FlatSlices(W.post) = [ i \in DOMAIN PR.sliceSeq |-> PR.sliceSeq[i].name ]
+       /\ \A i \in DOMAIN PR.sliceSeq :
+             LET sk == PR.sliceSeq[i].name
+             IN sk \in Keys => (store[sk].exists /\ store[sk].cr.tmplHash = PR.sliceSeq[i].content)
 
 ---------------------------------------------------------------------------
 (* C18 ObjectTemplates track their sources and stay within bounds (driver template-walk: template t1 renders the
